@@ -188,6 +188,24 @@ func runC03(c *Ctx) {
 			}
 			c.check(len(uniq) == 1, "R1", "one packet per nextID() in "+fnName(src.Parent()), pos(src), "each drawn id labels one request", "one nextID() result labels several request packets")
 		}
+		// … and every id that is drawn labels a request: an id drawn on the side (while the literal draws another one) is
+		// what the reply is later compared with, and the comparison never holds
+		for _, fn := range p.LibFuncs() {
+			if outermost(fn).Package() != p.Sftp {
+				continue
+			}
+			eachInstr(fn, func(in ssa.Instruction) {
+				cc := callOf(in)
+				if cc == nil || cc.StaticCallee() != nextID {
+					return
+				}
+				if _, ok := usedBy[in]; ok {
+					return
+				}
+				// handed on to a helper that builds the packet (a parameter named id of a function that is checked itself)
+				c.check(false, "R1", "the id drawn in "+fnName(fn)+" labels a request", pos(in), "stored into the ID of a request literal", "an id is drawn with nextID() that no request packet carries (the packet draws another one): what the reply is checked against is not what was sent")
+			})
+		}
 		c.floor("R1", 30)
 	}
 
